@@ -377,6 +377,8 @@ def run_acc(case):
 def strat_center(tier):
     return st.fixed_dictionaries({
         "n": st.integers(60, 160), "fx": st.floats(0.2, 0.8), "fy": st.floats(0.2, 0.8),
+        # second side of a non-square detector (None: square)
+        "n2": st.one_of(st.none(), st.integers(60, 160)),
         "x": gen.logu(3.0, 12.0), "m": gen.rounded(1.1, 1.35, 3), "fz": st.floats(0.0, 1.0), "outside": st.integers(0, 9),
         "sp": gen.rounded(0.15, 0.5, 3), "order": st.sampled_from(["xyz", "zxy"]),
         "o": gen.optics(False, pol=st.sampled_from([[1.0, 0.0], [0.0, 1.0]])),
@@ -393,14 +395,15 @@ def run_center(case):
     k = 2 * math.pi / lam
     n = case["n"]
     sp = case["sp"] * lam
-    det = hp.detector_grid(n, sp)
-    cx, cy = case["fx"] * (n - 1), case["fy"] * (n - 1)
+    n2 = case.get("n2") or n
+    det = hp.detector_grid((n, n2), sp)
+    cx, cy = case["fx"] * (n - 1), case["fy"] * (n2 - 1)
     r = case["x"] / k
     # calibrated domain (survey of 3000 cases, see DESIGN): the heuristic needs resolved fringes; with
     # N_near = (distance to the nearest edge)^2 / (lambda z) >= 2 rings on the nearest side the observed
     # maximum error is 0.44 px (p99 0.36 px).  k z is constructed inside that domain for 9 of 10 cases; the
     # remaining ones are measured and reported only.
-    near = min(case["fx"], 1 - case["fx"], case["fy"], 1 - case["fy"]) * (n - 1) * case["sp"]      # in wavelengths
+    near = min(min(case["fx"], 1 - case["fx"]) * (n - 1), min(case["fy"], 1 - case["fy"]) * (n2 - 1)) * case["sp"]      # in wavelengths
     kz_hi = min(300.0, math.pi * near ** 2 - case["x"])          # N_near >= 2
     kz_lo = 40.0
     in_domain = kz_hi > kz_lo and case["outside"] != 0
@@ -417,7 +420,7 @@ def run_center(case):
         holo = holo.transpose("z", "x", "y")
     c = center_find(holo)
     err = math.hypot(c[0] - cx, c[1] - cy)
-    labels = ["order_" + case["order"], "n_%d" % (n // 40 * 40)]
+    labels = ["order_" + case["order"], "n_%d" % (n // 40 * 40), "square" if n2 == n else "non_square"]
     if not in_domain:
         return Outcome(None, False, labels + ["outside_calibrated_domain"], skipped=True, metrics={"center_error_px_outside_domain": err})
     met = {"center_error_px": err}
@@ -432,7 +435,7 @@ def run_center(case):
     if abs(pri[0].mu - want[0]) > 1e-9 * n * spv or abs(pri[1].mu - want[1]) > 1e-9 * n * spv or abs(pri[0].sd - spv) > 1e-12 or abs(pri[1].sd - spv) > 1e-12:
         return Outcome(failure("center_priors_values", "priors mu=(%r,%r) sd=(%r,%r), expected centre*spacing+origin=%r sd=%r" % (
             pri[0].mu, pri[1].mu, pri[0].sd, pri[1].sd, want, spv)), True, labels)
-    ext = n * spv
+    ext = max(n, n2) * spv
     if pri[2].lower_bound != 0 or abs(pri[2].upper_bound - 5 * ext) > 1e-9 * ext:
         return Outcome(failure("center_priors_z", "z prior [%r, %r], documented [0, 5*extent=%r]" % (pri[2].lower_bound, pri[2].upper_bound, 5 * ext)), True, labels)
     return Outcome(None, True, labels, metrics=met)
